@@ -272,6 +272,10 @@ class Sim:
             scheduler="threads", pool=self.pool, num_workers=self.workers
         )
         self._saved["cfg"].__enter__()
+        from . import seams as _seams
+
+        self._lock_seam = _seams.LockSeam()
+        self._lock_seam.install()
         main = self._new_thread("main")
         main.state = RUNNABLE
         main.ident = threading.get_ident()
@@ -286,6 +290,8 @@ class Sim:
         if not self._installed:
             return
         dask.local.queue_get = self._saved["queue_get"]
+        with contextlib.suppress(Exception):
+            self._lock_seam.uninstall()
         with contextlib.suppress(Exception):
             self._saved["cfg"].__exit__(None, None, None)
         _ACTIVE = None
@@ -447,6 +453,10 @@ class Sim:
     def sleep(self, dt: float) -> None:
         me = self.me()
         if me is None or dt <= 0:
+            return
+        if me.atomic:
+            # process-pool stub: a task is one atomic step (its private generator must not be shared
+            # with a task that would run while this one sleeps); completion order is the start order
             return
         self.count("sleep")
         me.state = SLEEPING
